@@ -16,6 +16,6 @@ print("|---|---|---|---|")
 for name, prop, br, needs, first, det in rows:
     print("| `%s` | %s | %s | %s |" % (name, br, needs, det))
 n = len(rows); missed = sum(1 for r in rows if r[4] != "detected")
-open_ = sum(1 for r in rows if r[4] != "detected" and "follow-up running" in r[5].lower())
+open_ = sum(1 for r in rows if r[4] != "detected" and ("follow-up running" in r[5].lower() or "not followed up" in r[5].lower()))
 print()
-print("%d seeded changes; %d detected by the check as it stood (with a concrete failing input unless stated), %d first missed; of those %d are closed by strengthening the check (details in each row) and %d still have a follow-up in progress." % (n, n - missed, missed, missed - open_, open_))
+print("%d seeded changes; %d detected by the check as it stood (with a concrete failing input unless stated), %d first missed; of those %d are closed by strengthening the check (details in each row) and %d are not closed for that property's own check (each row says which other check reports it)." % (n, n - missed, missed, missed - open_, open_))
